@@ -18,7 +18,7 @@ VARIANTS = {
 }
 CELLS_QUICK = [("default", []), ("dictversions", ["CYTHON_USE_DICT_VERSIONS=1"])]
 CELLS_THOROUGH = CELLS_QUICK + [("limited", ["CYTHON_LIMITED_API=1", "Py_LIMITED_API=0x030c0000"])]
-BATCH = 120
+BATCH = 200
 
 
 def module_source(variant):
@@ -180,9 +180,10 @@ def run(ctx):
     outdir = os.path.join(ctx.work, "c26")
     cells = CELLS_QUICK if ctx.quick else CELLS_THOROUGH
     builds = build_all(outdir, cells)
-    nhist = 100 if ctx.quick else 2500
+    nhist = 200 if ctx.quick else 2400
+    nshards = 8 if ctx.quick else 16
     maxlen = 10
-    ctx.pmap(_shard, [(ctx.seed, s, nhist, builds, maxlen) for s in range(16)])
+    ctx.pmap(_shard, [(ctx.seed, s, nhist, builds, maxlen) for s in range(nshards)])
     # shrink replay cases: keep only the failing history when it reproduces alone
     out = []
     seen = set()
@@ -201,7 +202,7 @@ def run(ctx):
     ctx.rule = ("fixed reader/writer module (vlib/gen/globalhist.py: globals ga (defined), gb (writer-only), len (builtin shadowed by a writer); "
                 "variant B adds abs and zz_new which the module never assigns; 4 reader call-site shapes + a double read per name) built as "
                 "variant A (cache_builtins=True) / B (cache_builtins=False, error_on_unknown_names=False) x cells %s; %d Hypothesis histories "
-                "per variant and shard x 16 shards (3-%d steps + 2 final reads, focused on one name 75%% of the time), executed %d per runner "
+                "per variant and shard x 8 (quick) / 16 shards (3-%d steps + 2 final reads, focused on one name 75%% of the time), executed %d per runner "
                 "process with the module state reset (not the call-site caches) between histories; oracle: each read == lookup in "
                 "module.__dict__ then builtins.__dict__ at that moment (NameError iff both miss) and the full outcome list == CPython twin. "
                 "non-trivial = a read follows a mutation of the same name after an earlier read at the same call site; distinct by (variant, history)"
